@@ -73,6 +73,8 @@ def render_block(stmts, em):
             em.code("%s = %s" % (s[1], rx(s[2])))
         elif k == "mod":
             em.code("modify %s = %s" % (s[1], rx(s[2])))
+        elif k == "opadd":
+            em.code("%s += %s" % (s[1], rx(s[2])))
         elif k == "push":
             em.code("%s.push(%s)" % (s[1], rx(s[2])))
         elif k == "assert":
@@ -314,6 +316,10 @@ class Model:
             fr.locals[s[1]] = Cell(self.ev(s[2], fr))
         elif k == "mod":
             fr.cell(s[1]).v = self.ev(s[2], fr)
+        elif k == "opadd":
+            # op-assignment reads and updates the variable the name denotes: the local if there is one, else the captured one
+            c = fr.cell(s[1])
+            c.v = c.v + self.ev(s[2], fr)
         elif k == "push":
             fr.cell(s[1]).v.append(self.ev(s[2], fr))
         elif k == "assert":
@@ -457,7 +463,7 @@ def free_names(params, body):
                 free.update(used - bound)
                 bound.add(s[1])
                 continue
-            elif k in ("set", "mod", "push", "optset"):
+            elif k in ("set", "mod", "push", "optset", "opadd"):
                 used.add(s[1])
                 names_in_expr(s[2], used)
             elif k == "shadow":
@@ -621,6 +627,8 @@ class Gen:
             choices.append(("mod", 4))
         if cap_s:
             choices.append(("mods", 1))
+        if own_i or cap_i:
+            choices.append(("opadd", 3))
         if lists:
             choices.append(("push", 2))
         k = rng.weighted(choices)
@@ -632,6 +640,8 @@ class Gen:
             return ["set", rng.choice(own_i), self.bounded(self.int_expr(sc))]
         if k == "mod":
             return ["mod", rng.choice(cap_i), self.bounded(self.int_expr(sc))]
+        if k == "opadd":
+            return ["opadd", rng.choice(own_i + cap_i), ["%", self.int_expr(sc, 1), 7]]
         if k == "mods":
             n = rng.choice(cap_s)
             return ["mod", n, ["cat", ["v", n], ["s", rng.choice(["a", "b", "z"])]]]
